@@ -601,12 +601,24 @@ class _FuncEval:
             if v2 is None:
                 v2 = ("unbound", n)
             env.vars[n] = mk_ite(c, v1, v2)
-        # common prefix of conditions
+        # path condition of the join: the disjunction of what each surviving branch accumulated
         k = len(st.cond)
-        if o1.cond[:k] == st.cond and o2.cond[:k] == st.cond and len(o1.cond) == k + 1 and len(o2.cond) == k + 1:
-            cond = st.cond
+        if o1.cond[:k] == st.cond and o2.cond[:k] == st.cond:
+            e1, e2 = o1.cond[k:], o2.cond[k:]
+            if len(e1) == 1 and len(e2) == 1 and e1[0][0] == e2[0][0] and e1[0][1] != e2[0][1]:
+                cond = st.cond
+            else:
+                def conj(es):
+                    ts = tuple(a if p else mk_not(a) for a, p in es)
+                    if not ts:
+                        return ("const", True)
+                    return ts[0] if len(ts) == 1 else ("and", ts)
+                d1, d2 = conj(e1), conj(e2)
+                if d1 == ("const", True) or d2 == ("const", True):
+                    cond = st.cond
+                else:
+                    cond = st.cond + ((("or", (d1, d2)), True),)
         else:
-            # branches accumulated extra conditions (asserts etc.): keep the common prefix
             cond = tuple(x for x, y in zip(o1.cond, o2.cond) if x == y)
         return State(env, cond)
 
@@ -1133,8 +1145,38 @@ class _FuncEval:
                     return f, recv
         return None
 
+    def canon_call(self, fn: Term, args: list, kwargs: dict):
+        """Canonical argument form: calls of package functions and constructors are keyed by parameter name."""
+        if fn[0] in ("func", "closure", "boundcls"):
+            f = self.prog.functions.get(fn[1]) or self.prog.lambdas.get(fn[1])
+            if f is not None and not isinstance(f.node, ast.Lambda):
+                b = bind_args(f, list(args), kwargs)
+                if b is not None and f.node.args.vararg is None and f.node.args.kwarg is None:
+                    return [], b
+        if fn[0] in ("class", "clsparam"):
+            c = self.prog.classes.get(fn[1])
+            if c is not None and not c.is_enum():
+                init = c.find_method("__init__")
+                if init is not None:
+                    b = bind_args(init, [("self", c.qual)] + list(args), kwargs)
+                    if b is not None and init.node.args.vararg is None and init.node.args.kwarg is None:
+                        b.pop(init.params()[0], None)
+                        return [], b
+                elif c.is_dataclass() and "**" not in kwargs and not any(a[0] == "star" for a in args):
+                    fields = [f for f in c.dc_fields()]
+                    kw_only = all((k.dataclass_args or {}).get("kw_only", False) for k in c.pkg_mro()
+                                  if k.dataclass_args is not None)
+                    if not args or not kw_only:
+                        if len(args) <= len(fields):
+                            b = {f.name: a for f, a in zip(fields, args)}
+                            if not (set(b) & set(kwargs)):
+                                b.update(kwargs)
+                                return [], b
+        return args, kwargs
+
     def record(self, fn: Term, args: list, kwargs: dict, st: State, n: ast.AST, result: Optional[Term] = None,
                inlined: bool = False) -> Term:
+        args, kwargs = self.canon_call(fn, args, kwargs)
         kw = tuple(sorted(kwargs.items()))
         res = result if result is not None else ("call", fn, tuple(args), kw)
         self.s.calls.append(CallRec(fn, tuple(args), kw, st.cond, tuple(self.loop_stack), n, res,
@@ -1156,6 +1198,13 @@ class _FuncEval:
             r = self.fold_builtin(fn[1], args, kwargs)
             if r is not None:
                 return r
+            if fn[1] == "len" and len(args) == 1 and not kwargs:
+                t = self.ev.types.type_of(args[0], self)
+                if t is not None and t[0] == "inst":
+                    c = self.prog.classes.get(t[1])
+                    lf = c.find_method("__len__") if c is not None else None
+                    if lf is not None:
+                        return self.call_func(lf, [args[0]], {}, st, n)
             if fn[1] in ("setattr", "delattr") and args:
                 self.effect("store_attr", args[0], args[1] if len(args) > 1 else None,
                             args[2] if len(args) > 2 else None, st, n)
